@@ -49,6 +49,7 @@ func New(addrs []string, layout func(slot int) int) *Cluster {
 		n := redisd.New(a)
 		n.Name = fmt.Sprintf("n%d", i)
 		n.Route = func(s *redisd.Server, cs *redisd.ConnState, argv [][]byte) []byte { return c.route(i, s, cs, argv) }
+		n.RouteTxn = func(s *redisd.Server, cs *redisd.ConnState, queued [][][]byte) []byte { return c.routeTxn(queued) }
 		n.Extra = func(s *redisd.Server, cs *redisd.ConnState, argv [][]byte) []byte { return c.extra(i, s, cs, argv) }
 		n.Stamp = func() int64 { return c.global.Add(1) }
 		n.ClusterMode = true
@@ -217,6 +218,26 @@ func (c *Cluster) route(i int, s *redisd.Server, cs *redisd.ConnState, argv [][]
 	c.note("n%d MOVED slot %d -> n%d (%s)", i, slot, owner, name)
 	c.mu.Unlock()
 	return []byte(fmt.Sprintf("-MOVED %d %s\r\n", slot, c.Addrs[owner]))
+}
+
+// routeTxn: at EXEC all keys of all queued commands must hash to one slot.
+func (c *Cluster) routeTxn(queued [][][]byte) []byte {
+	slot := -1
+	for _, argv := range queued {
+		keys, ok := c.keys(argv)
+		if !ok {
+			continue
+		}
+		for _, k := range keys {
+			s := ref.HashSlot(k)
+			if slot == -1 {
+				slot = s
+			} else if s != slot {
+				return []byte("-CROSSSLOT Keys in request don't hash to the same slot\r\n")
+			}
+		}
+	}
+	return nil
 }
 
 func hostPort(addr string) (string, int) {
